@@ -1,7 +1,7 @@
 (* C01 - the schedule expressions of DistributedShampoo.step, as regenerated from the Python source (GenC01), equal the
    hand-written model (Optimizer.perform_amortized / use_grafting_method) on every input.  Statements + proofs only. *)
 From Coq Require Import ZArith List Bool Lia.
-From Shampoo Require Import Optimizer.
+From Shampoo Require Import Scalar Optimizer.
 From ShampooGen Require Import PyPrelude PyPreludeFacts GenC01.
 Import ListNotations.
 Open Scope Z_scope.
@@ -74,3 +74,121 @@ Proof.
   apply f_equal. apply List.map_ext. intro o. unfold Optimizer.root_of, default_root. rewrite Hk. reflexivity.
 Qed.
 Print Assumptions gen_eigcorr_get_inverse_roots_eq_model.
+
+(* ---- which in-place statements of the step run: weight decay (coupled / decoupled) and momentum ---------------- *)
+(* GenC01.*_path give, as a function of the hyperparameter tests, the tags of the torch._foreach_* statements that run (each
+   statement is identified by its exact source text in harness/gen_targets.py).  `run_*` below states what each tagged
+   statement does to the vectors of one block; running the generated path is the model's l2_grad / decoupled decay /
+   momentum_step, for every configuration and every vectors.  (The test `x != 0.0` is the model's `nz`.) *)
+Section StepPaths.
+  Context {F : Type} (Op : ops F).
+
+  (* _add_l2_regularization: 0 = torch._foreach_add_(grads, params, alpha=weight_decay) *)
+  Definition run_l2 (c : cfg (F:=F)) (w : vec) (acts : list Z) (g : vec) : vec :=
+    fold_left (fun g a => if a =? 0 then vaxpy Op g (c_wd c) w else g) acts g.
+
+  Lemma gen_add_l2_regularization_path_eq_model_ (c : cfg (F:=F)) (w g : vec) :
+    match GenC01.add_l2_regularization_path (nz Op (c_wd c)) (c_decoupled c) with
+    | Ret (acts, _) => run_l2 c w acts g = l2_grad Op c w g
+    | _ => False
+    end.
+  Proof. unfold GenC01.add_l2_regularization_path, l2_grad. cbv zeta. destruct (nz Op (c_wd c)); destruct (c_decoupled c); reflexivity. Qed.
+
+  (* _apply_decoupled_weight_decay: 0 = torch._foreach_add_(search_directions, params, alpha=weight_decay);
+     in Optimizer.block_step: P := if nz wd && decoupled then vaxpy P wd w else P *)
+  Lemma gen_apply_decoupled_weight_decay_path_eq_model_ (c : cfg (F:=F)) (w P : vec) :
+    match GenC01.apply_decoupled_weight_decay_path (nz Op (c_wd c)) (c_decoupled c) with
+    | Ret (acts, _) => run_l2 c w acts P = (if nz Op (c_wd c) && c_decoupled c then vaxpy Op P (c_wd c) w else P)
+    | _ => False
+    end.
+  Proof. unfold GenC01.apply_decoupled_weight_decay_path. cbv zeta. destruct (nz Op (c_wd c)); destruct (c_decoupled c); reflexivity. Qed.
+
+  (* _update_momentum on (momentum buffer M, search direction P):
+     0 = mul_(M, momentum)   1 = add_(M, P, alpha=1-dampening)   2 = mul_(P, 1-dampening)   3 = add_(P, M, alpha=momentum)   4 = copy_(P, M) *)
+  Definition run_momentum (c : cfg (F:=F)) (acts : list Z) (MP : vec * vec) : vec * vec :=
+    fold_left (fun mp a =>
+                 let '(M, P) := mp in
+                 if a =? 0 then (vscale Op (c_mom c) M, P)
+                 else if a =? 1 then (vaxpy Op M (fsub Op (f1 Op) (c_damp c)) P, P)
+                 else if a =? 2 then (M, vscale Op (fsub Op (f1 Op) (c_damp c)) P)
+                 else if a =? 3 then (M, vaxpy Op P (c_mom c) M)
+                 else if a =? 4 then (M, M)
+                 else mp) acts MP.
+
+  Lemma gen_update_momentum_path_eq_model_ (c : cfg (F:=F)) (M P : vec) :
+    match GenC01.update_momentum_path (nz Op (c_mom c)) (c_nesterov c) with
+    | Ret (acts, _) => run_momentum c acts (M, P) = (snd (momentum_step Op c M P), fst (momentum_step Op c M P))
+    | _ => False
+    end.
+  Proof. unfold GenC01.update_momentum_path, momentum_step. cbv zeta. destruct (nz Op (c_mom c)); destruct (c_nesterov c); reflexivity. Qed.
+End StepPaths.
+
+Theorem gen_add_l2_regularization_path_eq_model :
+  forall F (Op : ops F) (c : cfg (F:=F)) (w g : vec),
+  match GenC01.add_l2_regularization_path (nz Op (c_wd c)) (c_decoupled c) with
+  | Ret (acts, _) => run_l2 Op c w acts g = l2_grad Op c w g
+  | _ => False
+  end.
+Proof. intros. apply gen_add_l2_regularization_path_eq_model_. Qed.
+Print Assumptions gen_add_l2_regularization_path_eq_model.
+
+Theorem gen_apply_decoupled_weight_decay_path_eq_model :
+  forall F (Op : ops F) (c : cfg (F:=F)) (w P : vec),
+  match GenC01.apply_decoupled_weight_decay_path (nz Op (c_wd c)) (c_decoupled c) with
+  | Ret (acts, _) => run_l2 Op c w acts P = (if nz Op (c_wd c) && c_decoupled c then vaxpy Op P (c_wd c) w else P)
+  | _ => False
+  end.
+Proof. intros. apply gen_apply_decoupled_weight_decay_path_eq_model_. Qed.
+Print Assumptions gen_apply_decoupled_weight_decay_path_eq_model.
+
+Theorem gen_update_momentum_path_eq_model :
+  forall F (Op : ops F) (c : cfg (F:=F)) (M P : vec),
+  match GenC01.update_momentum_path (nz Op (c_mom c)) (c_nesterov c) with
+  | Ret (acts, _) => run_momentum Op c acts (M, P) = (snd (momentum_step Op c M P), fst (momentum_step Op c M P))
+  | _ => False
+  end.
+Proof. intros. apply gen_update_momentum_path_eq_model_. Qed.
+Print Assumptions gen_update_momentum_path_eq_model.
+
+(* ---- _compute_filtered_grad_list ------------------------------------------------------------------------------ *)
+(* tags: 0 used = _foreach_lerp(state, grads, 1 - beta3) (a new list)     1 used = the filtered-gradient STATE itself (alias)
+         2 _foreach_lerp_(state, grads, 1 - beta1) (in place)             3 bias_correction1 = 1 - beta3 * beta1 ** (step - 1)
+         4 used = _foreach_div(used, bias_correction1) (a new list)       5 used = clones of used        6 used = grads
+   `used` is a value, or the alias of the state (then it follows the in-place update of the state). *)
+Section FilterPath.
+  Context {F : Type} (Op : ops F).
+
+  Definition fg_value (used : option vec) (m : vec (F:=F)) : vec := match used with Some u => u | None => m end.
+
+  Definition run_filter (c : cfg (F:=F)) (t : Z) (h : hints) (g : vec) (acts : list Z) (st : option vec * vec) : option vec * vec :=
+    let bc1 := pick Op (fsub Op (f1 Op) (fmul Op (c_beta3 c) (fpown Op (c_beta1 c) (Z.to_nat (t - 1))))) (h_bc1 h) in
+    fold_left (fun st a =>
+                 let '(used, m) := st in
+                 if a =? 0 then (Some (vlerp Op m g (fsub Op (f1 Op) (c_beta3 c))), m)
+                 else if a =? 1 then (None, m)
+                 else if a =? 2 then (used, vlerp Op m g (fsub Op (f1 Op) (c_beta1 c)))
+                 else if a =? 3 then st
+                 else if a =? 4 then (Some (map (fun x => fdiv Op x bc1) (fg_value used m)), m)
+                 else if a =? 5 then (Some (fg_value used m), m)
+                 else if a =? 6 then (Some g, m)
+                 else st) acts st.
+
+  Lemma gen_compute_filtered_grad_list_path_eq_model_ (c : cfg (F:=F)) (t : Z) (h : hints) (m g : vec) :
+    match GenC01.compute_filtered_grad_list_path (nz Op (c_beta1 c)) (negb (feqb Op (c_beta3 c) (c_beta1 c))) (feqb Op (c_beta3 c) (c_beta1 c)) (c_biascorr c) with
+    | Ret (acts, _) => let '(used, m') := run_filter c t h g acts (None, m) in (fg_value used m', m') = filter_grad Op c t h m g
+    | _ => False
+    end.
+  Proof.
+    unfold GenC01.compute_filtered_grad_list_path, filter_grad. cbv zeta.
+    destruct (nz Op (c_beta1 c)); destruct (feqb Op (c_beta3 c) (c_beta1 c)); destruct (c_biascorr c); reflexivity.
+  Qed.
+End FilterPath.
+
+Theorem gen_compute_filtered_grad_list_path_eq_model :
+  forall F (Op : ops F) (c : cfg (F:=F)) (t : Z) (h : hints) (m g : vec),
+  match GenC01.compute_filtered_grad_list_path (nz Op (c_beta1 c)) (negb (feqb Op (c_beta3 c) (c_beta1 c))) (feqb Op (c_beta3 c) (c_beta1 c)) (c_biascorr c) with
+  | Ret (acts, _) => let '(used, m') := run_filter Op c t h g acts (None, m) in (fg_value used m', m') = filter_grad Op c t h m g
+  | _ => False
+  end.
+Proof. intros. apply gen_compute_filtered_grad_list_path_eq_model_. Qed.
+Print Assumptions gen_compute_filtered_grad_list_path_eq_model.
